@@ -489,10 +489,31 @@ mutual
     | x :: xs => stable x && stableL xs
 end
 
-/-- the file map: as `stable`, and a file map on one line holds at most one node
-    (its re-parsed range always spans the trailing newline) -/
+/-- a kept board node that stands on the first line of the file although something is printed before it
+    (`y; steps: {…}`, or nested in a map opened on line 0): the printer omits its blank line (`Start.Line != 0`).
+    `file` = the list is the node list of the file map, whose first node may legitimately be on line 0. -/
+def l0Bad (file : Bool) (nodes : List N) : Bool :=
+  (if file then nodes.drop 1 else nodes).any (fun n => isKeptBoard n && l0Of n)
+
+mutual
+  def l0Free (file : Bool) : N → Bool
+    | .arr _ items => l0FreeL items
+    | .map _ nodes => !l0Bad file nodes && l0FreeL nodes
+    | .item _ v => l0Free false v
+    | .mnode _ _ v => l0Free false v
+    | .key _ _ v => l0Free false v
+    | _ => true
+  def l0FreeL : List N → Bool
+    | [] => true
+    | x :: xs => l0Free false x && l0FreeL xs
+end
+
+/-- the file map: as `stable`, a file map on one line holds at most one node (its re-parsed range always spans the
+    trailing newline), and no deferred board stands on the first line behind other output -/
 def stableFile : N → Bool
-  | .map one nodes => stable (.map false nodes) && (!one || (nodes.length ≤ 1 && flatL nodes && nodes.all (fun n => !isBoard n)))
+  | .map one nodes =>
+      stable (.map false nodes) && (!one || (nodes.length ≤ 1 && flatL nodes && nodes.all (fun n => !isBoard n)))
+        && l0Free true (.map one nodes)
   | _ => false
 
 /-- which clause of `stableFile` fails first somewhere in the tree (names the signature of a C03 violation) -/
@@ -502,6 +523,7 @@ def mapWhy (file one : Bool) (nodes : List N) : Option String :=
   else if nodes.any (fun n => isBoard n && !isKeptBoard n) then some "boards-dropped"
   else if one && nodes.any isBoard then some "boards-in-one-line-map"
   else if !boardsSuffix nodes then some "boards-not-last"
+  else if l0Bad file nodes then some "boards-first-line"
   else none
 
 mutual
